@@ -94,7 +94,7 @@ def _pos_cond(c: "T"):
             c = T("cmp", NEG[c.name], c.args, node=c.node)
             flipped = not flipped
             continue
-        if c.op == "unary" and c.name == "Not":
+        if (c.op == "unary" and c.name == "Not") or (c.op == "not" and len(c.args) == 1):
             c = c.args[0]
             flipped = not flipped
             continue
